@@ -123,6 +123,18 @@ fn rename_references(
     new_name: String,
 ) -> Option<WorkspaceEdit> {
     let mut result = HashMap::new();
+    // the implicit `self` of a method has no declaration token to rename; resolving it further would
+    // rename the method's receiver (`function obj:m() self.x = 1 end` renamed `obj`)
+    if token.text() == "self"
+        && let Some(decl_id) = semantic_model
+            .get_db()
+            .get_reference_index()
+            .get_var_reference_decl(&semantic_model.get_file_id(), token.text_range())
+        && let Some(decl) = semantic_model.get_db().get_decl_index().get_decl(&decl_id)
+        && decl.is_implicit_self()
+    {
+        return None;
+    }
     let semantic_decl = match get_target_node(token.clone()) {
         Some(node) => semantic_model.find_decl(node.into(), SemanticDeclLevel::NoTrace),
         None => semantic_model.find_decl(token.into(), SemanticDeclLevel::NoTrace),
